@@ -103,9 +103,18 @@ package dsd
 //@   requires r != nil
 //@   modifies *
 //@   at call dumpWithoutIdentifier assert arg1 == format
-//@   at call (Header).Set assert arg2 == mimeType
+//@   at call (Header).Set assert arg1 == "Content-Type" && arg2 == mimeType
 
+// the response names the encoding actually used, and does so before the first byte of the body
+// is written (a ResponseWriter sends its header with the first Write); the body is exactly the
+// serialized data, written once
 //@ func DumpToHTTPResponse
 //@   requires r != nil && w != nil
 //@   modifies *
-//@   at call (Header).Set assert arg2 == mimeType
+//@   ghost var hdrSet bool = false
+//@   ghost var writes int = 0
+//@   at call (Header).Set assert arg1 == "Content-Type" && arg2 == mimeType && writes == 0
+//@   at call (Header).Set ghost hdrSet = true
+//@   at call invoke.Write assert hdrSet && writes == 0 && arg0 == data
+//@   at call invoke.Write ghost writes = writes + 1
+//@   ensures r0 == nil ==> hdrSet && writes == 1
